@@ -18,14 +18,14 @@ COMMON = (" The check rebuilds the proofs, audits their axioms, regenerates the 
 
 claim("C01", "Theorem C01: for every non-empty list of literal items, all 4 flag settings and every well-formed listing, the "
       "engine model's search on the stream finds the compiled rule iff a window of consecutive instructions exists at which "
-      "every item holds (master theorem + alignment); C01_locality." + COMMON, "DESIGN.md 0.2, 7 C01",
+      "every item holds (master theorem + alignment); C01_locality; C01_end_to_end (from the listing text); C01_pipeline (the whole modelled operation runOp: config, YAML front end, typing, compilation, parsing, stream, search)." + COMMON, "DESIGN.md 0.2, 7 C01",
       "Hypotheses: literal names (no regex metacharacters, no , |), operand names not of the form [0-9a-f]+h (finding D11), "
       "records of at most 1000 characters, lower-case hex addresses, no :: inside a record body.")
 claim("C02", "Theorems C02_bounds (times {lo,hi} = n-fold composition, lo <= n <= hi, each repetition consuming what one occurrence "
       "consumes), C02_unroll (times n = written n times, at regex level), C02_spellings, for every item/group of the capture-free "
       "literal fragment." + COMMON, "DESIGN.md 0.2, 7 C02", "Fragment: items and $and/$or/$not/$and_any_order groups nested arbitrarily; no captures inside (C05).")
 claim("C03", "Theorems C03_or / C03_and / C03_anyOrder (some permutation q ~ l, each child once) at instruction and operand level, "
-      "C03_no_merge, C03_perms." + COMMON, "DESIGN.md 0.2, 7 C03", "$deref fields containing $or: correspondence only.")
+      "C03_no_merge, C03_perms; C03_verdict (engine search = executable specification foundSpec on the fragment) and C03_pipeline (whole operation runOp on the YAML text of any rule of the fragment = foundSpec)." + COMMON, "DESIGN.md 0.2, 7 C03", "$deref fields containing $or: correspondence only.")
 claim("C04", "Theorems C04_instruction, C04_operand (exactly one instruction/operand, iff the argument fails there), C04_seq." + COMMON,
       "DESIGN.md 0.2, 7 C04", "Capture-free literal fragment; the repairs D2+D3 are part of the tree.")
 claim("C05", "Theorem C05_spine: environment-threaded master theorem for the capture spine (engine groups by registration index mirror "
@@ -45,7 +45,7 @@ claim("C08", "Theorems C08_inst, C08_line, C08_listing, C08_stream: parser o ren
       "DESIGN.md 0.2, 7 C08", "The grammar LineSpec is an assumption about GNU objdump 2.40, validated by classifying real objdump output (T5).")
 claim("C09", "Theorem C09 (and C09_split, C09_normal_form): the operand text of an instruction with any number of operands of the AT&T "
       "forms is split into exactly its operands, each in normal form." + COMMON, "DESIGN.md 0.2, 7 C09", "Components free of ( ) ,.")
-claim("C10", "Theorems C10_roundtrip (decode (encode L) = L), C10_injective, C10_bar_count; counter-examples showing the hypotheses are needed." + COMMON,
+claim("C10", "Theorems C10_roundtrip (decode (encode L) = L), C10_injective, C10_bar_count, C10_parser_output_wf, C10_end_to_end (listing text -> parser -> stream -> decode = the listing's instructions); counter-examples showing the hypotheses are needed." + COMMON,
       "DESIGN.md 0.2, 7 C10", "Inst.WF is a hypothesis on parser output; objdump's branch-hint mnemonics violate it (finding D7).")
 claim("C11", "Theorem C11: the all-matches result on the stream is the text of an instruction-level leftmost non-overlapping scan (ScanI); "
       "C11_nonNull, C11_first." + COMMON, "DESIGN.md 0.2, 7 C11", "Patterns that can match the empty sequence are outside the quantifier.")
